@@ -2,7 +2,7 @@
 from checklib import spec as S
 
 ID = 'C01'
-LEAN_DEPS = ['RvModel.Spec.C01A', 'RvModel.Spec.C01B', 'RvModel.Lemmas.C01B', 'RvModel.Hand.DispatchAll']
+LEAN_DEPS = ['RvModel.Spec.C01A', 'RvModel.Spec.C01B', 'RvModel.Lemmas.C01B', 'RvModel.Spec.C01C', 'RvModel.Lemmas.C01C', 'RvModel.Hand.DispatchAll']
 METHODS = ('ln_f', 'f', 'ln_pdf', 'pdf', 'ln_pmf', 'pmf')
 N_GEN = {'quick': 10, 'thorough': 150}
 
